@@ -29,3 +29,20 @@ Definition exit_status (ret_remote_rc : bool) (l : list hres) : Z :=
 (* S: the largest return code, raised to RC_FAILED if any host failed *)
 Definition spec_max (l : list hres) : Z :=
   Z.max (fold_right Z.max 0 (map hrc l)) (if existsb is_failed l then Z.of_N RC_FAILED else 0).
+
+(* ---- the status request and -k (fail-fast) ----
+   dsh(): the suffix ";echo XXRETCODE:$?" is appended to the command when -S or -k is given; a remote shell prints the
+   status line only if it was asked to.  _rsh_thread(): with -k, a worker whose host failed or whose return code is
+   positive forwards SIGTERM to the others and ends pdsh with status 1, before the -S loop is ever reached. *)
+Definition getstat (optS optk : bool) : bool := optS || optk.
+Definition seen_inband (gs : bool) (code : Z) : Z := if gs then code else 0.
+Definition kfail (h : hres) : bool := is_failed h || (0 <? hrc h).
+Definition exit_k (optS optk : bool) (l : list hres) : Z :=
+  if optk && existsb kfail l then 1 else exit_status optS l.
+
+(* one host of a scripted run: could it be reached and did its command run to the end (fails = false), the code its
+   command exits with, the status the transport reports at teardown *)
+Definition host_result (gs fails : bool) (code drc : Z) : hres :=
+  mkhres (if fails then HFailed else HDone) (host_rc (seen_inband gs code) drc).
+Definition run_exit (optS optk : bool) (hosts : list (bool * (Z * Z))) : Z :=
+  exit_k optS optk (map (fun h => host_result (getstat optS optk) (fst h) (fst (snd h)) (snd (snd h))) hosts).
